@@ -84,68 +84,4 @@ ReadFen(s) ==
 Uci(m) == SqNameT[m.f] \o SqNameT[m.t] \o (IF m.p = NoPromo THEN "" ELSE m.p)
 IsPrefixStr(p, s) == Len(p) <= Len(s) /\ SubSeq(s, 1, Len(p)) = p
 
-(* ------------------------------- SAN ----------------------------------- *)
-(* Every admissible spelling of a legal move, as the library documents the *)
-(* notation (FIDE Appendix C): piece letter; no, file, rank or full        *)
-(* disambiguation - whichever leaves exactly one legal move of that kind   *)
-(* to that square; pawn captures name the source file; "x" on captures     *)
-(* including en passant; destination; promotion letter without "=";        *)
-(* nothing or the correct "+" / "#"; optional " e.p." on en-passant        *)
-(* captures; castling as O-O / O-O-O with the same suffix rule.            *)
-UpperKind(k) == Upper[k]
-FileCh(s) == FileNames[FileOf(s) + 1]
-RankCh(s) == RankNames[RankOf(s) + 1]
-
-CheckSuffixes(pos, m) ==
-  LET n == Apply(pos, m)
-  IN IF ~InCheck(n.b, n.stm) THEN {""}
-     ELSE IF LegalMoves(n) = {} THEN {"", "#"} ELSE {"", "+"}
-
-SanCores(pos, m, ms) ==       \* spellings without check suffix / e.p. marker
-  LET b  == pos.b
-      k  == Kind(b[m.f])
-      cap == IsCapture(pos, m)
-      x  == IF cap THEN "x" ELSE ""
-      dest == SqNameT[m.t]
-  IN IF IsCastle(pos, m) THEN {IF FileOf(m.t) = 6 THEN "O-O" ELSE "O-O-O"}
-     ELSE IF k = "p"
-     THEN {(IF cap THEN FileCh(m.f) ELSE "") \o x \o dest \o (IF m.p = NoPromo THEN "" ELSE UpperKind(m.p))}
-     ELSE LET same == {y \in ms : Kind(b[y.f]) = k /\ y.t = m.t}        \* rivals for this text
-              dis  == (IF Cardinality(same) = 1 THEN {""} ELSE {})
-                      \cup (IF Cardinality({y \in same : FileOf(y.f) = FileOf(m.f)}) = 1 THEN {FileCh(m.f)} ELSE {})
-                      \cup (IF Cardinality({y \in same : RankOf(y.f) = RankOf(m.f)}) = 1 THEN {RankCh(m.f)} ELSE {})
-                      \cup {SqNameT[m.f]}
-          IN {UpperKind(k) \o d \o x \o dest : d \in dis}
-
-SanSpellings(pos, m, ms) ==
-  LET cores == SanCores(pos, m, ms)
-      sufs  == CheckSuffixes(pos, m)
-      eps   == IF IsEP(pos, m) THEN {"", " e.p."} ELSE {""}
-  IN {c \o s \o e : c \in cores, s \in sufs, e \in eps}
-
-(* Well-formed texts that must be REJECTED: they fit no legal move, or more *)
-(* than one.                                                                *)
-SanRejects(pos, ms) ==
-  LET b == pos.b
-      officers == {"n", "b", "r", "q", "k"}
-      \* (castling counts as a king move to its destination: "Kg1" for O-O is left open, not demanded rejected)
-      goes(k, t) == {y \in ms : Kind(b[y.f]) = k /\ y.t = t}
-      \* ambiguous: two or more officers of one kind reach the square and no disambiguation is given
-      ambiguous == UNION {{UpperKind(k) \o (IF b[t] # Empty THEN "x" ELSE "") \o SqNameT[t] :
-                             t \in {t \in Squares : Cardinality(goes(k, t)) >= 2}} : k \in officers}
-      \* nothing of that kind goes there at all
-      nothing == UNION {{UpperKind(k) \o (IF b[t] # Empty THEN "x" ELSE "") \o SqNameT[t] :
-                           t \in {t \in Squares : goes(k, t) = {}}} : k \in officers}
-      \* a wrong file given as disambiguation
-      wrongfile == {UpperKind(Kind(b[y.f])) \o FileNames[((FileOf(y.f) + 3) % 8) + 1] \o (IF b[y.t] # Empty THEN "x" ELSE "") \o SqNameT[y.t] :
-                       y \in {y \in ms : Kind(b[y.f]) \in officers /\ ~IsCastle(pos, y)
-                                         /\ ~\E z \in ms : Kind(b[z.f]) = Kind(b[y.f]) /\ z.t = y.t /\ FileOf(z.f) = (FileOf(y.f) + 3) % 8}}
-      \* pawn pushes to squares no pawn can reach; castling that is not available
-      pawnno == {SqNameT[t] : t \in {t \in Squares : RankOf(t) \in 1..6 /\ ~\E y \in ms : Kind(b[y.f]) = "p" /\ y.t = t /\ y.p = NoPromo}}
-      nocastle == {c \in {"O-O", "O-O-O"} : ~\E y \in ms : IsCastle(pos, y) /\ (FileOf(y.t) = 6) = (c = "O-O")}
-      \* destinations that are not on the board at all
-      offboard == {UpperKind(k) \o FileNames[f] \o d : k \in officers, f \in 1..8, d \in {"0", "9"}}
-                  \cup {FileNames[f] \o d : f \in 1..8, d \in {"0", "9"}}
-                  \cup {UpperKind(k) \o c \o RankNames[r] : k \in officers, c \in {"i", "j"}, r \in 1..8}
-  IN ambiguous \cup nothing \cup wrongfile \cup pawnno \cup nocastle \cup offboard
 =============================================================================
